@@ -312,7 +312,9 @@ func c11One(env *fw.Env, cs c11Case) {
 		o.Linktest, o.LinktestFails, o.Suppress, o.WriteTimeout = 60*time.Millisecond, 50, &off, 200*time.Millisecond
 	case "stall-linktest+local-sends":
 		on := true
-		o.Linktest, o.T6, o.LinktestFails, o.Suppress = 60*time.Millisecond, 100*time.Millisecond, 2, &on
+		// (timers wide enough that "one local message between a probe's timeout and the next tick" survives a loaded
+		// machine: the message goes out ~100 ms after the timeout and ~200 ms before the tick)
+		o.Linktest, o.T6, o.LinktestFails, o.Suppress = 300*time.Millisecond, 500*time.Millisecond, 2, &on
 	case "stall-linktest":
 		off := false
 		o.Linktest, o.T6, o.LinktestFails, o.Suppress = 40*time.Millisecond, 100*time.Millisecond, 2, &off
@@ -560,7 +562,7 @@ func c11One(env *fw.Env, cs c11Case) {
 					select {
 					case <-stopLocal:
 						return
-					case <-time.After(o.T6 + 20*time.Millisecond):
+					case <-time.After(o.T6 + 100*time.Millisecond):
 					}
 					ctx, cancel := context.WithTimeout(context.Background(), time.Second)
 					_, _ = rg.Conn.SendDataMessage(ctx, 6, 11, false, secs2.A("local traffic during the stall"))
@@ -569,10 +571,10 @@ func c11One(env *fw.Env, cs c11Case) {
 				}
 			}
 		}()
-		ok := waitFor(8*time.Second, func() bool { return rg.Conn.State() != hsms.SelectedState })
+		ok := waitFor(12*time.Second, func() bool { return rg.Conn.State() != hsms.SelectedState })
 		close(stopLocal)
 		if !ok {
-			fail("stall-not-dropped-linktest", "the peer answered no Linktest.req for 8 s (interval 60 ms, T6 100 ms, threshold 2, suppression on) while the local side wrote one message after every probe timeout, and the session is still Selected")
+			fail("stall-not-dropped-linktest", "the peer answered no Linktest.req for 12 s (interval 300 ms, T6 500 ms, threshold 2, suppression on) while the local side wrote one message after every probe timeout, and the session is still Selected")
 			return
 		}
 		env.Event("stall_cases", 1)
